@@ -2,7 +2,8 @@
    all expressions, statements, environments, states and fuel. [eval_deterministic] is
    definitional (the evaluator is a Gallina function). *)
 From GL Require Import Common.Bytes Lua.Syntax Lua.Num Lua.Values Lua.Names Lua.Eval
-  Lua.ValuesFacts Lua.TableFacts Lua.MonadFacts Lua.EvalStepFacts Lua.CallFacts Lua.CoreFacts.
+  Lua.Run Lua.ValuesFacts Lua.TableFacts Lua.MonadFacts Lua.EvalStepFacts Lua.CallFacts Lua.CoreFacts
+  Lua.EvalFuelFacts.
 
 Theorem adjust_spec : forall n vs, length (adjust n vs) = n /\ forall i, (i < n)%nat -> nth i (adjust n vs) VNil = nth i vs VNil.
 Proof. exact adjust_spec_full_lemma. Qed.
@@ -154,6 +155,37 @@ Theorem concat_accepts_numbers : forall n fr b f t s,
   f_to_text f = Some t -> binop_v (S n) fr OConcat (VStr b) (VNum f) s = Ret (VStr (b ++ t)) s.
 Proof. exact concat_accepts_numbers_lemma. Qed.
 Print Assumptions concat_accepts_numbers.
+
+(* fuel monotonicity of the whole evaluator (induction over all 20 mutually recursive functions):
+   more fuel only refines an OutOfFuel result, also inside the continuations of pending effects *)
+Theorem fuel_mono : forall n m cx ln en e s, (n <= m)%nat -> rle (eval_e n cx ln en e s) (eval_e m cx ln en e s).
+Proof. exact fuel_mono_eval_lemma. Qed.
+Print Assumptions fuel_mono.
+
+Theorem fuel_mono_all : forall n m, (n <= m)%nat -> all_le n m.
+Proof. exact all_le_all. Qed.
+Print Assumptions fuel_mono_all.
+
+Theorem fuel_mono_statement_holds : fuel_mono_statement.
+Proof. exact fuel_mono_succ_lemma. Qed.
+Print Assumptions fuel_mono_statement_holds.
+
+Theorem eval_fuel_mono : forall n m cx ln en e s v s',
+  (n <= m)%nat -> eval_e n cx ln en e s = Ret v s' -> eval_e m cx ln en e s = Ret v s'.
+Proof. exact fuel_mono_eval_done_lemma. Qed.
+Print Assumptions eval_fuel_mono.
+
+Theorem call_fuel_mono : forall n m fr f args s r,
+  (n <= m)%nat -> call n fr f args s = r -> is_eff r = false -> r <> OutOfFuel -> call m fr f args s = r.
+Proof. exact fuel_mono_done_lemma. Qed.
+Print Assumptions call_fuel_mono.
+
+(* whole programs through the coroutine driver: a determined outcome is the outcome for every
+   larger fuel — "the trace Lua 5.1 defines" does not depend on the fuel *)
+Theorem program_fuel_mono : forall n m d body f,
+  (n <= m)%nat -> run_program n d body = f -> f <> FinFuel -> run_program m d body = f.
+Proof. exact run_program_stable_lemma. Qed.
+Print Assumptions program_fuel_mono.
 
 (* fuel: the combinators preserve "more fuel only refines an OutOfFuel result" *)
 Theorem fuel_mono_bind : forall A B (r r' : res A) (f f' : A -> state -> res B),
